@@ -20,7 +20,7 @@ def sample(vari, size: int=1):
     If not sampleable, return object itself (but check compatibility with `size`)
     """
     if isinstance(vari, Sampleable_Type):
-        return vari.rvs(size)
+        return vari.rvs(size=size)
     # else, if the right size, return the object itself
     if np.isscalar(vari) and size == 1:
         return vari
